@@ -143,7 +143,7 @@ def tag_value_ok(t, s):
   if t == "i":
     return fm(INT, s)
   if t == "f":
-    return fm(FLOAT, s)
+    return fm(FLOAT, s) and float_in_range(s)
   if t == "Z":
     return fm(r"[ !-~]+", s)
   if t == "J":
@@ -158,9 +158,15 @@ def tag_value_ok(t, s):
   return False
 
 
+def float_in_range(s):
+  """value range of the datatype: a finite IEEE double"""
+  v = float(s)
+  return v == v and v not in (float("inf"), -float("inf"))
+
+
 def b_ok(s):
   if fm(r"f(," + FLOAT + r")+", s):
-    return True
+    return all(float_in_range(e) for e in s.split(",")[1:])
   m = re.fullmatch(r"([cCsSiI])((,[-+]?[0-9]+)+)", s)
   if not m:
     return False
@@ -386,9 +392,9 @@ def cross_ok(rt, version, fields, pos):
       ev, el = posval(d[e])
       if bv > ev:
         return False, "begin > end"
-      if bl and not el and True:
-        # begin is the last position, so end (>= begin) must be too
-        return False, "$ on begin but not on end"
-      if bl and el and bv != ev:
-        return False, "two different last positions"
+      if bl and not el:
+        # begin carries `$`, end (>= begin, hence also the last position)
+        # does not: the property only says "`$` only on a last position";
+        # whether `$` is mandatory there is left open -> abstain
+        return None, "abstain: $ on begin only"
   return True, None
